@@ -183,7 +183,7 @@ Theorem C03_trie_middle_array_bhiksha : forall m, 0 <= t_base m -> 0 <= t_wb m <
   (forall i j, lo <= i -> i <= j -> j < hi -> tword_of recs i <= tword_of recs j) ->
   (forall i, lo <= i < hi -> tword_of recs i <= t_max_vocab m) -> 0 <= word <= t_max_vocab m -> hi - lo <= 2 ^ 32 ->
   (Z.of_nat fuel >= Z.max 1 (hi - lo + 1)) ->
-  exists res, tmidA_find m fuel (length (map (r_next pb) recs ++ [next_end])) (tstA m recs next_end mem0) word lo hi = Some res /\
+  exists res, tmidA_find m fuel (tstA m recs next_end mem0) word lo hi = Some res /\
     match res with
     | Some (p, prob, bo, cb, ce) => lo <= p < hi /\ tword_of recs p = word /\ prob = sign_on (tprob_of recs p mod 2 ^ 31) /\
                                     bo = tbo_of recs p /\ cb = tnextA recs next_end p /\ ce = tnextA recs next_end (p + 1)
